@@ -147,7 +147,11 @@ func (u *Universe) elemToPR(s *Schema, f *Field, fd protoreflect.FieldDescriptor
 		if !v.Some {
 			return protoreflect.Value{}, false, nil
 		}
-		return u.elemToPR(s, f, fd, dm, v.L[0], mapVal)
+		pv, present, err := u.elemToPR(s, f, fd, dm, v.L[0], mapVal)
+		if v.L[0].T == 'e' {
+			present = true // a selected oneof member holding its message by value is present even when it is empty
+		}
+		return pv, present, err
 	case 'm', 'e':
 		if v.T == 'm' && !v.Some {
 			return protoreflect.Value{}, false, nil
